@@ -81,11 +81,14 @@ pub struct RunOpts {
     pub verbose: u8,
     /// binary to run instead of the default debug build (release-build passes)
     pub bin: Option<PathBuf>,
+    /// when this text appears on stdout, stop the process (SIGSTOP) for that many seconds, then
+    /// continue it: lets wall-clock driven code (the 10 s progress line) run on a small chain
+    pub pause_on: Option<(String, f64)>,
 }
 
 impl RunOpts {
     pub fn new(coin: Coin, callback: Callback) -> RunOpts {
-        RunOpts { coin, start: None, end: None, verify: false, callback, threads: None, fsize: None, nofile: None, pin: false, inject: None, trace: None, trace_paths: vec![], timeout_s: std::env::var("VP_TIMEOUT").ok().and_then(|v| v.parse().ok()).unwrap_or(90), verbose: 0, bin: None }
+        RunOpts { coin, start: None, end: None, verify: false, callback, threads: None, fsize: None, nofile: None, pin: false, inject: None, trace: None, trace_paths: vec![], timeout_s: std::env::var("VP_TIMEOUT").ok().and_then(|v| v.parse().ok()).unwrap_or(90), verbose: 0, bin: None, pause_on: None }
     }
 }
 
@@ -349,9 +352,26 @@ fn run_tool_once(datadir: &Path, dump: &Path, o: &RunOpts) -> Result<RunOut, Str
     let mut child = cmd.spawn().map_err(|e| format!("spawn {}: {}", bin.display(), e))?;
     let mut so = child.stdout.take().expect("piped stdout");
     let mut se = child.stderr.take().expect("piped stderr");
+    let pause = o.pause_on.clone();
+    let pid = child.id() as i32;
     let t_out = std::thread::spawn(move || {
         let mut v = Vec::new();
-        let _ = std::io::Read::read_to_end(&mut so, &mut v);
+        let mut paused = false;
+        let mut buf = [0u8; 8192];
+        loop {
+            match std::io::Read::read(&mut so, &mut buf) {
+                Ok(0) | Err(_) => break,
+                Ok(n) => v.extend_from_slice(&buf[..n]),
+            }
+            if let (Some((marker, secs)), false) = (&pause, paused) {
+                if v.windows(marker.len()).any(|w| w == marker.as_bytes()) {
+                    paused = true;
+                    unsafe { libc::kill(pid, libc::SIGSTOP) };
+                    std::thread::sleep(Duration::from_secs_f64(*secs));
+                    unsafe { libc::kill(pid, libc::SIGCONT) };
+                }
+            }
+        }
         v
     });
     let t_err = std::thread::spawn(move || {
